@@ -31,7 +31,7 @@ RULE = ("recordings of 12000-90000 samples x 65/97/385 channels, batch sizes {40
 ASSUMPTIONS = ["pyfftw replaced by a scipy.fft stand-in (numerically equivalent to +-1 LSB of the int16 output; worker-count identity and sync identity do not depend on it)",
                "workers share nothing but the output / QC files", "the batch-wise reference re-uses the repository's own per-batch building blocks (saturation, fshift, "
                "kfilt/car): it judges the batching / seek / stitch logic, not the DSP (C05, C16 do)"]
-REQUIRED = {"configs": 4, "workers_probed": 10, "write_rows_judged": 50000, "orders_executed": 8, "sync_columns_compared": 4, "reference_compared": 4,
+REQUIRED = {"configs": 4, "explicit_width_configs": 3, "width_compared": 3, "workers_probed": 10, "write_rows_judged": 50000, "orders_executed": 8, "sync_columns_compared": 4, "reference_compared": 4,
             "saturated_samples": 10}
 CASE_TIMEOUT = 400.0
 MAX_PROCS = 10
@@ -58,6 +58,7 @@ def gen_cases(seed, tier):
                      n=int(rng.choice([64, 96, 96, 384])))
             if i % 5 == 0:      # aligned lengths: the last batch exactly full, +-1
                 c["ns"] = c["nbatch"] + int(rng.integers(0, 8)) * (c["nbatch"] - 2 * TAPER) + int(rng.choice([-1, 0, 0, 1]))
+        c["ncout"] = [None, None, "n", "less"][i % 4]      # explicit output width, crossed with every other option
         c.update(cls="sched", seed=seed * 1000 + i, opt=(i % 7) if i < 8 or i >= 12 else [2, 0, 2, 0][i - 8], _w=6 + c["ns"] / 10000 * (c["n"] / 96))
         cases.append(c)
     for i in range(2 if tier == "quick" else 10):
@@ -239,7 +240,13 @@ def run_case(case):
             nw = case["workers"]
             b, rec = make_recording(rng, d, ns, n)
             opts = options(rng, case["opt"], n)
+            if case.get("ncout") == "n":
+                opts["nc_out"] = n
+            elif case.get("ncout") == "less":
+                opts["nc_out"] = int(rng.integers(max(1, n // 2), n))
             nc_out = opts.get("nc_out") or rec.nc
+            if nc_out != rec.nc:
+                res.count("explicit_width_configs")
             ns2add = opts.get("ns2add", 0)
             total_rows = ns + ns2add
             rowbytes = nc_out * 2
@@ -294,9 +301,22 @@ def run_case(case):
                 ref, _ = reference(V, F, sr, rec, nbatch, opts.get("k_filter", True), opts.get("wrot"), labels, nc_out, ns2add, sr.geometry)
                 sr.close()
                 # the code casts by truncation: compare integers with integers (two values closer than 1 truncate to integers at most 1 apart)
-                dev = np.max(np.abs(img1[:, :n].astype(np.float64) - np.trunc(np.clip(ref[:, :n], -32768, 32767))))
+                mcol = min(n, nc_out)
+                dev = np.max(np.abs(img1[:, :mcol].astype(np.float64) - np.trunc(np.clip(ref[:, :mcol], -32768, 32767))))
                 res.measure("max_dev_from_reference_lsb", dev)
                 res.check(dev <= 1.0, "output:reference", f"{label}: output differs from batch-wise in-memory destriping by {dev:.2f} LSB", counter="reference_compared")
+            # ---------------- narrower output = the first columns of the full-width output
+            if img1 is not None and nc_out != rec.nc:
+                ow = d / "wide" / "out.bin"
+                ow.parent.mkdir()
+                try:
+                    run_destripe(V, b, ow, nbatch, 1, {k: v for k, v in opts.items() if k != "nc_out"})
+                    wide = np.frombuffer(ow.read_bytes(), np.int16).reshape(-1, rec.nc)
+                    res.check(wide.shape[0] == img1.shape[0] and np.array_equal(wide[:, :nc_out], img1), "output:width",
+                              f"{label}: the {nc_out}-column output is not the first {nc_out} columns of the full-width output", counter="width_compared")
+                except Exception as e:
+                    res.exception("output:width:exception", e, label)
+                shutil.rmtree(ow.parent, ignore_errors=True)
             # ---------------- (2) write sets of nw workers
             if nw > 1:
                 op = d / "probe" / "out.bin"
@@ -392,7 +412,7 @@ def run_case(case):
                         key = "order:exception" + (":start-beyond-last-batch" if rogue else "")
                         res.exception(key, e, f"{label} order {order}")
                     shutil.rmtree(oo.parent, ignore_errors=True)
-            res.sig = f"sched-{ns}-{nbatch}-{nw}-{n}-{case['opt']}"
+            res.sig = f"sched-{ns}-{nbatch}-{nw}-{n}-{case['opt']}-{case.get('ncout')}"
             res.nontrivial = K >= 3 and nw >= 2
         elif cls == "loky":
             b, rec = make_recording(rng, d, ns, n)
